@@ -30,7 +30,7 @@ from typing import Any, Callable, Dict, List, Optional, Sequence, Tuple
 
 HOME = os.environ.get("VERIF_HOME", os.path.dirname(os.path.dirname(os.path.abspath(__file__))))
 OUT_DIR = os.path.join(HOME, "out")
-EVIDENCE_DIR = os.path.join(HOME, "evidence")
+EVIDENCE_DIR = os.environ.get("VERIF_EVIDENCE_DIR") or os.path.join(HOME, "evidence")
 CORPUS_DIR = os.path.join(HOME, "corpus")
 KNOWN_FINDINGS = os.path.join(HOME, "known_findings.json")
 
